@@ -394,10 +394,12 @@ fn run_c19<A: Flavor>(case: &CaseC19) -> CaseReport {
                 p.add(i).write(0xEE);
             }
         }
-        let data = arena.allocated_memory()[arena.reserved_bytes()..].to_vec();
-        if data.len() != len {
-            return Err(viol!("C15", "slice-lengths", "allocated_memory()[reserved..] has length {}, expected {len}", data.len()));
-        }
+        // the statement's right-hand side, literally: allocated_memory()[reserved_bytes()..] as the arena reports them
+        // (a wrong reserved_bytes() or allocated_memory() length is judged through the equation first; only if the
+        // equation still holds is the length itself reported, under the property that owns it)
+        let rb = arena.reserved_bytes().min(arena.allocated_memory().len());
+        let data = arena.allocated_memory()[rb..].to_vec();
+        let data_len = data.len();
         let r = len % page;
         if len >= page && (r <= 1 || r == page - 1) {
             classes.insert("at-page-multiple");
@@ -412,13 +414,19 @@ fn run_c19<A: Flavor>(case: &CaseC19) -> CaseReport {
         let got = guard("checksum", "C19", || arena.checksum(&crc))?;
         let want = crc.checksum_one(&data);
         if got != want {
-            return Err(viol!("C19", "crc32-differs", "checksum(Crc32)={got:#x}, one-shot over allocated_memory()[{reserved}..] (len {len}) = {want:#x}"));
+            return Err(viol!("C19", "crc32-differs", "checksum(Crc32)={got:#x}, one-shot over allocated_memory()[{rb}..] (len {data_len}; configured reserved {reserved}) = {want:#x}"));
         }
         let ps = BuildPosSum;
         let got = guard("checksum", "C19", || arena.checksum(&ps))?;
         let want = ps.checksum_one(&data);
         if got != want {
             return Err(viol!("C19", "possum-differs", "checksum(position-weighted sum)={got:#x}, one-shot over allocated_memory()[{reserved}..] (len {len}) = {want:#x}"));
+        }
+        if arena.reserved_bytes() != reserved {
+            return Err(viol!("C16", "acc-reserved-bytes", "reserved_bytes()={} configured {reserved}", arena.reserved_bytes()));
+        }
+        if data_len != len {
+            return Err(viol!("C15", "slice-lengths", "allocated_memory()[reserved..] has length {data_len}, expected {len}"));
         }
         Ok(())
     })();
